@@ -221,6 +221,12 @@ pub fn show_reply(p: &Packet) -> String {
     }
 }
 
+/// how many full blocks the scripted upload sends before its short final block
+pub fn upload_full_blocks(b: usize, w: usize) -> usize {
+    let by_bytes = std::cmp::max(1, 49152 / std::cmp::max(b, 1));
+    std::cmp::min(std::cmp::min(w, 300), by_bytes)
+}
+
 pub fn send_error(sock: &UdpSocket, to: &SocketAddr) {
     let p = Packet::Error { code: ErrorCode::NotDefined, msg: "verif: end".into() };
     let _ = sock.send_to(&p.serialize().unwrap(), to);
@@ -256,8 +262,28 @@ pub fn converse(listener: SocketAddr, dgram: &[u8]) -> (String, String) {
     if let Some(to) = peer {
         have_conv = true;
         if is_wrq {
-            // upload one short block
-            let d = Packet::Data { block_num: 1, data: b"abc".to_vec() };
+            // upload: `nfull` full blocks of the acknowledged block size, then the short block "abc";
+            // the sequence of ACK numbers that comes back shows after how many blocks the server acknowledges
+            let (mut b, mut w) = (512usize, 1usize);
+            if r1.contains(" oack ") {
+                for kv in r1.rsplit(' ').next().unwrap_or("").split(',') {
+                    if let Some(v) = kv.strip_prefix("blksize:") {
+                        b = v.parse().unwrap_or(512);
+                    }
+                    if let Some(v) = kv.strip_prefix("windowsize:") {
+                        w = v.parse().unwrap_or(1);
+                    }
+                }
+            }
+            let nfull = upload_full_blocks(b, w);
+            for k in 1..=nfull {
+                let d = Packet::Data { block_num: (k % 65536) as u16, data: gen_bytes(b, k) };
+                sock.send_to(&d.serialize().unwrap(), to).unwrap();
+                if k % 16 == 0 {
+                    std::thread::sleep(Duration::from_micros(300));
+                }
+            }
+            let d = Packet::Data { block_num: ((nfull + 1) % 65536) as u16, data: b"abc".to_vec() };
             sock.send_to(&d.serialize().unwrap(), to).unwrap();
             while let Some((p, _from, _)) = recv_packet(&sock, ms(15, 800)) {
                 match p {
